@@ -395,6 +395,12 @@ def run(ctx, report):
                 else:
                     R4.violation('%s.%s' % (cname, name), '%s.%s' % (cname, name),
                                  '%s does not depend on .arg only: %s' % (name, [u(p.ret) for p in ps]), where(mod, fn))
+            elif name == '__bool__':
+                ps = return_paths(fn)
+                if len(ps) == 1 and not ps[0].conds and u(ps[0].ret).replace(' ', '') in ('self.arg!=0', 'bool(self.arg)'):
+                    R4.ok('%s.%s' % (cname, name), sample='__bool__ -> %s' % u(ps[0].ret))
+                else:
+                    R4.violation('%s.%s' % (cname, name), '%s.%s' % (cname, name), '__bool__ is not (self.arg != 0): %s' % [u(p.ret) for p in ps], where(mod, fn))
             elif name == '__pow__':
                 ps = return_paths(fn)
                 v = fn.args.args[1].arg
